@@ -90,6 +90,123 @@ func c04Case(c *core.Ctx, w WLCase, maxLeaves int64) {
 	}
 }
 
+// c04Coverage handles lengths whose complete cell is out of reach: every
+// execution with at most ONE draw deviating from the default answer is run
+// (each alternative of each draw, so menus of any size are enumerated) and
+// the union of the outputs must show every coordinate value the documentation
+// promises: each word at each position, each position capitalised and not
+// (random) / each position as the capitalised one (one), each separator value
+// in each gap. A value that no single draw can produce has probability 0 or
+// needs a conspiracy of draws - either way the product is not uniform.
+func c04Coverage(c *core.Ctx, w WLCase) {
+	key := "coverage " + mustJSON(w)
+	rp := map[string]interface{}{"case": w, "mode": "coverage"}
+	kept, _ := ref.Normalise(w.Words)
+	seps, _, _ := w.sepModel()
+	r, err := w.build()
+	if err != nil {
+		return
+	}
+	L := w.Length
+	wordSeen := make([]map[string]bool, L)
+	capSeen := make([][2]bool, L) // [plain, capitalised]
+	onlyCap := make([]bool, L)
+	sepSeen := make([]map[string]bool, L)
+	for i := range wordSeen {
+		wordSeen[i] = map[string]bool{}
+		sepSeen[i] = map[string]bool{}
+	}
+	bad := ""
+	st := exploreCell(r.Generate, CellOpt{DepthCut: 4*L + 8, Fallback: 2, MaxMenu: 1 << 17, MaxLeaves: 3_000_000, Dev: 1}, func(l *Leaf) {
+		if l.Out.Aborted || bad != "" {
+			return
+		}
+		if !l.Out.HasPw {
+			bad = "Generate failed: " + l.Out.Err + l.Out.Panic
+			return
+		}
+		if len(l.Out.Atoms) != L {
+			bad = fmt.Sprintf("%d atoms for Length %d", len(l.Out.Atoms), L)
+			return
+		}
+		ncap, last := 0, -1
+		for i, a := range l.Out.Atoms {
+			isCap := false
+			base := a
+			for _, k := range kept {
+				if ref.Title(k) == a && k != a {
+					isCap, base = true, k
+				}
+			}
+			wordSeen[i][base] = true
+			if isCap {
+				capSeen[i][1] = true
+				ncap++
+				last = i
+			} else {
+				capSeen[i][0] = true
+			}
+		}
+		if ncap == 1 {
+			onlyCap[last] = true
+		}
+		for i, sp := range l.Out.Seps {
+			if i < L {
+				sepSeen[i][sp] = true
+			}
+		}
+	})
+	c.Count("executions", st.Leaves)
+	c.Count("nodes", st.Nodes)
+	c.Count("edges", st.Edges)
+	c.Count("coverage_cases", 1)
+	if st.Capped || st.TooWide || st.Uncalibrated {
+		c.Incomplete("coverage exploration of %s capped/too wide/uncalibrated", mustJSON(w))
+		return
+	}
+	if bad != "" {
+		c.Violation(key+" failed", bad, rp)
+		return
+	}
+	capitalisable := true
+	for _, k := range kept {
+		if ref.Title(k) == k {
+			capitalisable = false
+		}
+	}
+	for i := 0; i < L; i++ {
+		for _, k := range kept {
+			if !wordSeen[i][k] {
+				c.Violation(key+" word", fmt.Sprintf("word %q never appears at position %d of %d, whichever single draw is changed", k, i, L), rp)
+				return
+			}
+		}
+		if capitalisable {
+			switch w.Cap {
+			case "random":
+				if !capSeen[i][0] || !capSeen[i][1] {
+					c.Violation(key+" caps", fmt.Sprintf("scheme random, Length %d: position %d is never %s, whichever single draw is changed", L, i, map[bool]string{true: "left uncapitalised", false: "capitalised"}[capSeen[i][1]]), rp)
+					return
+				}
+			case "one":
+				if !onlyCap[i] {
+					c.Violation(key+" caps", fmt.Sprintf("scheme one, Length %d: position %d is never the capitalised one", L, i), rp)
+					return
+				}
+			}
+		}
+		if i < L-1 && len(seps) > 1 {
+			for _, sp := range seps {
+				if sp != "" && !sepSeen[i][sp] {
+					c.Violation(key+" separator", fmt.Sprintf("separator %q never appears in gap %d", sp, i), rp)
+					return
+				}
+			}
+		}
+	}
+	c.Outcome(fmt.Sprintf("coverage L=%d %s", L, w.Cap))
+}
+
 func c04Run(c *core.Ctx) {
 	maxLeaves := int64(6000)
 	lengths := []int{1, 2, 3}
@@ -108,6 +225,22 @@ func c04Run(c *core.Ctx) {
 		}
 		c04Case(c, w, maxLeaves*4)
 	}
+	// long recipes: single-deviation coverage
+	longL := []int{4, 8, 16, 17, 18, 33}
+	if c.Thorough() {
+		longL = []int{4, 5, 7, 8, 9, 15, 16, 17, 18, 31, 32, 33, 34, 64, 65}
+	}
+	for _, L := range longL {
+		for _, ws := range [][]string{{"ab"}, {"ab", "cd"}, {"ab", "cd", "efg"}} {
+			for _, cp := range wlSchemes {
+				for _, sp := range []Sep{{Kind: "none"}, {Kind: "char", Char: "-"}, {Kind: "SFDigits1"}} {
+					if c.Mine() {
+						c04Coverage(c, WLCase{Words: ws, Length: L, Cap: cp, Sep: sp})
+					}
+				}
+			}
+		}
+	}
 }
 
 func init() {
@@ -115,7 +248,7 @@ func init() {
 		ID:    "C04",
 		Level: "model_checking",
 		Rule: "for each wordlist case (10 lists incl. sizes 1,2,3,5, twins, caseless, pre-capitalised, non-ASCII x lengths 1-3 x 5 schemes x 10 separator settings, cells up to 6000 leaves quick / 300000 thorough) every combination of outcomes of every bounded draw of the real Generate is executed; the exact rational probability of every token sequence must equal the uniform independent product pushed through title-casing; " +
-			"non-trivial = cases whose cell returns more than one distinct password",
+			"for lengths 4-33 (thorough to 65) every execution with at most one deviating draw, with a coverage oracle (each word at each position, each capitalisation pattern coordinate, each separator value in each gap); non-trivial = cases whose cell returns more than one distinct password",
 		Assume:      []string{"C01 per-draw uniformity", "lists violating the title-casing premise are skipped when capitalisation is on", "separator recipes that need retries are outside complete cells (covered deviation-bounded in C05)"},
 		Run:         c04Run,
 		DistinctKey: "cases_with_several_outputs",
@@ -123,10 +256,15 @@ func init() {
 	Replayers["C04"] = func(raw json.RawMessage) (string, bool) {
 		var rp struct {
 			Case WLCase `json:"case"`
+			Mode string `json:"mode"`
 		}
 		json.Unmarshal(raw, &rp)
 		c := &core.Ctx{ID: "C04", Tier: "quick", NShards: 1}
-		c04Case(c, rp.Case, 2000000)
+		if rp.Mode == "coverage" {
+			c04Coverage(c, rp.Case)
+		} else {
+			c04Case(c, rp.Case, 2000000)
+		}
 		return fmt.Sprintf("case %s: %d violation(s) %v", mustJSON(rp.Case), c.R.NViol, c.R.Violations), c.R.NViol > 0
 	}
 }
